@@ -2,7 +2,7 @@
 import json
 import os
 
-from rules import hirq, mirq, inventory, apimisuse
+from rules import hirq, mirq, inventory, apimisuse, visit
 from rules.core import walk, norm_path, AnchorMissing, VERIF
 from props import c03
 
@@ -246,6 +246,70 @@ def r8_cited_invariants(run, F):
         run.key_prefix = old
 
 
+def r9_resolve_before_fail(run, F):
+    """Errors are collected at resolution: a cascade marker (Poison::Poisoned, or a type helper's Err built from one) turns
+    into an EMPTY error list, relying on the sub-tree that holds the real error being resolved as well.  So in every
+    Resolvable::resolve arm, an early exit `x?` on such a possibly-empty residual must come after the traversal of every
+    child of the node; otherwise compilation fails without any diagnostic."""
+    C = F.lib
+    TR = "alpha::resolver::Resolvable"
+    impls = [b for b in C.bodies.values() if b.get("impl_trait") == TR and "{closure" not in b["npath"]]
+    run.require(len(impls) >= 15, "resolver impls not found (%d)" % len(impls))
+    rel = visit.type_closure(C, {"alpha::common::Expression", "alpha::common::Reference", "alpha::common::Statement"})
+
+    def is_trav(c):
+        return c.endswith("alpha::resolver::Resolvable>::resolve") or c == TR + "::resolve"
+
+    def try_sites(node):
+        out = []
+        for m in hirq.matches(node, msrc=None):
+            if not (m.get("msrc") or "").startswith("TryDesugar") or not m["scrut"].get("a"):
+                continue
+            x = hirq.unwrap_trivial(m["scrut"]["a"][0])
+            cal = (hirq.callee(x) or hirq.callee_decl(x)) if x.get("k") in ("Call", "MethodCall") else None
+            if cal and is_trav(cal):
+                continue
+            if any(hirq.short(p).startswith("Error::") for p, _ in hirq.constructs(x)):
+                continue   # a freshly built error: never empty
+            out.append((m.get("l") or x.get("l"), x, cal))
+        return out
+    n = 0
+    for b in impls:
+        adt = C.adts.get(norm_path(b.get("impl_self") or ""))
+        if adt is None or adt["kind"] != "enum":
+            scopes = [(b["npath"].split(" as ")[0].lstrip("<").split("::")[-1], None, b["hir"])]
+        else:
+            mm = [m for m in hirq.matches(b["hir"]) if len(m["arms"]) >= 3]
+            scopes = []
+            for m in mm[:1]:
+                for a in m["arms"]:
+                    scopes.append((hirq.pat_key(a["pat"]).split("::")[-1], a, a["body"]))
+        for label, arm, body in scopes:
+            sites = try_sites(body)
+            if not sites:
+                continue
+            travs = visit.traversal_calls(body, is_trav)
+            # relevant children bound by the arm's pattern (or, for structs, fields of self)
+            binds = []
+            if arm is not None:
+                binds = [(nm, lid) for nm, lid, t in hirq.pat_bindings(arm["pat"]) if t is not None and visit.mentions(C.types[t], rel)]
+            for line, x, cal in sites:
+                n += 1
+                late = []
+                for nm, lid in binds:
+                    der = visit.derived_lids(body, {lid})
+                    tl = [c["l"] for c in travs if any(hirq.uses_local(i, l) for l in der for i in visit.call_inputs(c))]
+                    if tl and min(tl) > line:
+                        late.append("%s (resolved at line %d)" % (nm, min(tl)))
+                if arm is None and travs and min(c["l"] for c in travs) > line:
+                    late.append("children (first resolve() at line %d)" % min(c["l"] for c in travs))
+                what = cal.split("::")[-1] + "(..)?" if cal else "`%s?`" % (hirq.local_name_of(x) or x.get("k"))
+                run.ob("R9-RESOLVE-BEFORE-FAIL", "%s::%s|%s" % (b["npath"].split(" as ")[0].lstrip("<").split("::")[-1], label, what), not late,
+                       F.where(b, x), "early exit on a possibly empty error list before the children are resolved: %s -- the real error inside "
+                       "them is dropped and compilation fails with no diagnostic" % late, sample={"line": line, "late": late})
+    run.require(n >= 6, "resolver: `?` sites on type results not found (%d)" % n)
+
+
 def check(run):
     F = run.facts("B")
     r1_inventory(run, F)
@@ -257,3 +321,4 @@ def check(run):
     r6_abort(run, F)
     r7_args_covered(run, F)
     r8_cited_invariants(run, F)
+    r9_resolve_before_fail(run, F)
